@@ -108,6 +108,7 @@ def printers():
 def run_fragments(ctx, fragments, sources, default_source, key, origin, sample_text):
     n_pos = n_unpos = n_ren = 0
     viol = []
+    last = {}
     current = default_source
     for frag in fragments:
         # a fragment without a source of its own belongs to the source of the
@@ -132,6 +133,20 @@ def run_fragments(ctx, fragments, sources, default_source, key, origin, sample_t
             n_ren += 1
         if r is not None:
             viol.append(r)
+        elif not frag[0].startswith(('//', '/*')):
+            # printing keeps the source order of the tokens and emits each once: a fragment that is
+            # right about *a* token of its kind but not about its own one shows as a repeat or a step back
+            # (comments are hoisted in front of the node that holds them and are exempt)
+            src = sources.get(current)
+            off = src.table.offset(frag[1], frag[2])
+            if frag[0] == ';' and off in src.synth:
+                continue     # a semicolon the lexer synthesised sits at the offset of the token after it
+            if off <= last.get(current, -1):
+                viol.append(('C08:token_position_repeated_or_out_of_order',
+                             'fragment %r carries %s:%s of %r, at or before the position of an earlier fragment of '
+                             'this output (offset %d after %d)' % (frag[0][:20], frag[1], frag[2], current, off,
+                                                                   last[current])))
+            last[current] = max(off, last.get(current, -1))
     ctx.hit('fragments_positioned', n_pos)
     ctx.hit('fragments_checked', n_pos)
     ctx.hit('renamed_checked', n_ren)
